@@ -2,7 +2,7 @@
    (coq/Gen/Units_<v>.v, regenerated from the XML on every run) and the refutation witnesses. *)
 From Coq Require Import List NArith ZArith QArith Bool Lia.
 From HV Require Import Base.Res Base.Str Model.Units Proofs.UnitsProofs Gen.UnitsAll.
-From HV Require Gen.Units_8_3_0 Gen.Units_8_2_0.
+From HV Require Gen.Units_8_3_0 Gen.Units_8_2_0 Gen.Units_8_1_0.
 Import ListNotations.
 Local Open Scope N_scope.
 
@@ -94,6 +94,13 @@ Definition s_M : str := [77].
 Definition s_m : str := [109].
 Definition s_Ms : str := [77; 115].
 Definition s_ms : str := [109; 115].
+Definition s_m_s : str := [109; 32; 115].                                     (* "m s" *)
+Definition s_3_m : str := [51; 32; 109].                                      (* "3 m" *)
+Definition s_Temperature : str := [84; 101; 109; 112; 101; 114; 97; 116; 117; 114; 101].
+Definition s_degree_Celsius : str :=
+  [100; 101; 103; 114; 101; 101; 32; 67; 101; 108; 115; 105; 117; 115].      (* "degree Celsius" *)
+Definition s_3_degree : str := [51; 32; 100; 101; 103; 114; 101; 101].       (* "3 degree" *)
+Definition s_Celsius : str := [67; 101; 108; 115; 105; 117; 115].
 
 (* HED 8.3.0, Duration *)
 Definition S83 := Units_8_3_0.schema.
@@ -104,6 +111,13 @@ Definition U83_second := find_unit C83 s_second.
 Definition U83_s := find_unit C83 s_s.
 Definition m83_m := find_mod S83 s_m.
 
+(* HED 8.1.0, Temperature: the only NAME of the Celsius unit is "degree Celsius" *)
+Definition S81 := Units_8_1_0.schema.
+Definition T81 := find_tag Units_8_1_0.tags s_Temperature.
+Definition cs81 := tag_unit_classes S81 T81.
+Definition C81 := hd dummy_class cs81.
+Definition U81_degC := find_unit C81 s_degree_Celsius.
+
 (* HED 8.2.0, Duration *)
 Definition S82 := Units_8_2_0.schema.
 Definition T82 := find_tag Units_8_2_0.tags s_Duration.
@@ -112,57 +126,115 @@ Definition C82 := hd dummy_class cs82.
 Definition U82_s := find_unit C82 s_s.
 Definition m82_M := find_mod S82 s_M.
 
-(* finding 10: "Duration/3 Seconds" validates (no issue at all) and the conversion raises TypeError;
-   all hypotheses of convert_defined hold *)
+(* RECORD of finding 10 (repaired by fix: f83491d; fixed = false is the code before it): "Duration/3 Seconds"
+   validated without any issue and the conversion raised TypeError, whatever the splitting switches *)
 Lemma convert_refuted_case_lemma :
-  exists S cs n u C U M ft (T : utag),
+  exists S cs n u v w C U M ft (T : utag),
     wf_schema S = true /\ (forall C, In C cs -> In C (s_classes S)) /\
-    no_space u /\ u <> [] /\ n <> [] /\ cands S cs n = [] /\ unamb S cs u = true /\
+    no_space n /\ n <> [] /\ rpartition_space (n ++ 32 :: u) = (v, w) /\ w <> [] /\
+    cands S cs v = [] /\ unamb S cs u = true /\
     In C cs /\ In U (c_units C) /\ spells S U M u /\ u_prefix U = false /\
     u_factor U = Some ft /\ is_numeric n = true /\
-    check_units_valid S T cs (n ++ 32 :: u) = [] /\
-    value_as_default_unit false S cs (n ++ 32 :: u) = Exn TypeError.
+    check_units_valid false false S T cs (n ++ 32 :: u) = [] /\
+    value_as_default_unit false false false S cs (n ++ 32 :: u) = Exn TypeError /\
+    value_as_default_unit false true true S cs (n ++ 32 :: u) = Exn TypeError.
 Proof.
-  exists S83, cs83, s_3, s_Seconds, C83, U83_second, None, [49; 46; 48], T83.
+  exists S83, cs83, s_3, s_Seconds, s_3, s_Seconds, C83, U83_second, None, [49; 46; 48], T83.
   split; [vm_compute; reflexivity|].
   split; [intros C H; eapply tag_unit_classes_sub; exact H|].
-  split; [vm_compute; reflexivity|].
-  split; [discriminate|]. split; [discriminate|].
+  split; [vm_compute; reflexivity|]. split; [discriminate|].
+  split; [vm_compute; reflexivity|]. split; [discriminate|].
   split; [vm_compute; reflexivity|]. split; [vm_compute; reflexivity|].
   split; [in_list|]. split; [in_list|].
   split; [split; [exact I|right; vm_compute; reflexivity]|].
   split; [vm_compute; reflexivity|]. split; [vm_compute; reflexivity|].
-  split; [vm_compute; reflexivity|]. split; vm_compute; reflexivity.
+  split; [vm_compute; reflexivity|]. split; [vm_compute; reflexivity|].
+  split; vm_compute; reflexivity.
 Qed.
 
-(* finding 11: "Duration/3 Ms" with HED 8.2.0 (mega is declared 10^6): all hypotheses of convert_value
-   hold, the code computes 3 * 10^7, the declared factors give 3 * 10^6 *)
+(* RECORD of finding 11 (repaired by fix: d18c9c6): "Duration/3 Ms" with HED 8.2.0 (mega is declared 10^6):
+   the code computed 3 * 10^7, the declared factors give 3 * 10^6 *)
 Lemma convert_refuted_mega_lemma :
-  exists S cs n u x C U M ft fU fM q,
+  exists S cs n u v w x C U M ft fU fM q,
     wf_schema S = true /\ (forall C, In C cs -> In C (s_classes S)) /\
-    no_space u /\ u <> [] /\ n <> [] /\ cands S cs n = [] /\ unamb S cs u = true /\
+    no_space n /\ n <> [] /\ rpartition_space (n ++ 32 :: u) = (v, w) /\ w <> [] /\
+    cands S cs v = [] /\ unamb S cs u = true /\
     In C cs /\ In U (c_units C) /\ spells S U M u /\ u_prefix U = false /\
     u_factor U = Some ft /\ unit_factor U = Some fU /\ mod_factor M = Some fM /\
     parse_float n = Some x /\
-    value_as_default_unit false S cs (n ++ 32 :: u) = Ok (Some q) /\
+    value_as_default_unit false false false S cs (n ++ 32 :: u) = Ok (Some q) /\
+    value_as_default_unit false true true S cs (n ++ 32 :: u) = Ok (Some q) /\
     Qeq q (30000000 # 1) /\ Qeq (Qmult x (Qmult fU fM)) (3000000 # 1) /\
     ~ Qeq q (Qmult x (Qmult fU fM)).
 Proof.
-  exists S82, cs82, s_3, s_Ms, (Qmult (inject_Z 3) (pow10 0)), C82, U82_s, (Some m82_M), [49; 46; 48].
+  exists S82, cs82, s_3, s_Ms, s_3, s_Ms, (Qmult (inject_Z 3) (pow10 0)), C82, U82_s, (Some m82_M), [49; 46; 48].
   eexists. eexists. eexists.
   split; [vm_compute; reflexivity|].
   split; [intros C H; eapply tag_unit_classes_sub; exact H|].
-  split; [vm_compute; reflexivity|].
-  split; [discriminate|]. split; [discriminate|].
+  split; [vm_compute; reflexivity|]. split; [discriminate|].
+  split; [vm_compute; reflexivity|]. split; [discriminate|].
   split; [vm_compute; reflexivity|]. split; [vm_compute; reflexivity|].
   split; [in_list|]. split; [in_list|].
   split; [split; [split; [in_list|vm_compute; reflexivity]|vm_compute; reflexivity]|].
   split; [vm_compute; reflexivity|]. split; [vm_compute; reflexivity|].
   split; [vm_compute; reflexivity|]. split; [vm_compute; reflexivity|].
   split; [vm_compute; reflexivity|].
-  split; [vm_compute; reflexivity|].
+  split; [vm_compute; reflexivity|]. split; [vm_compute; reflexivity|].
   split; [vm_compute; reflexivity|]. split; [vm_compute; reflexivity|].
   vm_compute. discriminate.
+Qed.
+
+(* RECORD of finding C11-F3 (f3 = false is the code before the repair, with or without repair F4):
+   "Temperature/3 degree Celsius" with HED 8.1.0 meets every hypothesis of accepted_iff, the unit text spells the
+   unit degree Celsius, and the answer was UNITS_INVALID (and no value) *)
+Lemma accepted_refuted_blank_name_lemma :
+  exists S cs n u v w (T : utag),
+    wf_schema S = true /\ (forall C, In C cs -> In C (s_classes S)) /\
+    no_space n /\ n <> [] /\ u <> [] /\ rpartition_space (n ++ 32 :: u) = (v, w) /\ w <> [] /\
+    cands S cs v = [] /\ unamb S cs u = true /\
+    spelled_in S cs false u /\ check_value_class T n = [] /\
+    (forall f4, check_units_valid false f4 S T cs (n ++ 32 :: u) = [UNITS_INVALID]) /\
+    (forall f4, value_as_default_unit true false f4 S cs (n ++ 32 :: u) = Ok None).
+Proof.
+  exists S81, cs81, s_3, s_degree_Celsius, s_3_degree, s_Celsius, T81.
+  split; [vm_compute; reflexivity|].
+  split; [intros C H; eapply tag_unit_classes_sub; exact H|].
+  split; [vm_compute; reflexivity|]. split; [discriminate|]. split; [discriminate|].
+  split; [vm_compute; reflexivity|]. split; [discriminate|].
+  split; [vm_compute; reflexivity|]. split; [vm_compute; reflexivity|].
+  split.
+  { exists C81, U81_degC, None.
+    split; [in_list|]. split; [in_list|].
+    split; [split; [exact I|left; vm_compute; reflexivity]|vm_compute; reflexivity]. }
+  split; [vm_compute; reflexivity|].
+  split; intros [|]; vm_compute; reflexivity.
+Qed.
+
+(* RECORD of finding C11-F4 (f3 = f4 = false is the code before both repairs): "Duration/3 m s" with HED 8.3.0
+   meets every hypothesis of other_text_invalid -- "m s" spells no unit -- and drew no issue at all, while the
+   conversion raised ValueError *)
+Lemma other_text_refuted_extra_words_lemma :
+  exists S cs n u v w (T : utag),
+    wf_schema S = true /\ (forall C, In C cs -> In C (s_classes S)) /\
+    no_space n /\ rpartition_space (n ++ 32 :: u) = (v, w) /\ cands S cs v = [] /\
+    ~ spelled_in S cs false u /\ ~ spelled_in S cs true v /\
+    check_units_valid false false S T cs (n ++ 32 :: u) = [] /\
+    value_as_default_unit true false false S cs (n ++ 32 :: u) = Exn ValueError.
+Proof.
+  exists S83, cs83, s_3, s_m_s, s_3_m, s_s, T83.
+  assert (Hwf : wf_schema S83 = true) by (vm_compute; reflexivity).
+  assert (Hcs : forall C, In C cs83 -> In C (s_classes S83))
+    by (intros C H; eapply tag_unit_classes_sub; exact H).
+  split; [exact Hwf|]. split; [exact Hcs|].
+  split; [vm_compute; reflexivity|]. split; [vm_compute; reflexivity|].
+  split; [vm_compute; reflexivity|].
+  assert (Hno : forall t pre, unamb S83 cs83 t = true -> cands S83 cs83 t = [] -> ~ spelled_in S83 cs83 pre t).
+  { intros t pre Hun Hc [C [U [M [HC [HU [Hsp HP]]]]]].
+    destruct (spelled_hit S83 cs83 Hwf Hcs C U M t Hun HC HU Hsp) as [e [_ [Hin _]]].
+    rewrite Hc in Hin. destruct Hin. }
+  split; [apply Hno; vm_compute; reflexivity|].
+  split; [apply Hno; vm_compute; reflexivity|].
+  split; vm_compute; reflexivity.
 Qed.
 
 (* non-vacuity: the hypotheses of convert_value are met by "Duration/3 ms" (HED 8.3.0), and the theorem
@@ -171,17 +243,19 @@ Lemma nonvacuous_lemma :
   exists fU fM,
     unit_factor U83_s = Some fU /\ mod_factor (Some m83_m) = Some fM /\
     Qeq fU 1 /\ Qeq fM (1 # 1000) /\
-    value_as_default_unit true S83 cs83 (s_3 ++ 32 :: s_ms)
+    value_as_default_unit true true true S83 cs83 (s_3 ++ 32 :: s_ms)
       = Ok (Some (Qmult (Qmult (inject_Z 3) (pow10 0)) (Qmult fU fM))).
 Proof.
   eexists. eexists.
   split; [vm_compute; reflexivity|]. split; [vm_compute; reflexivity|].
   split; [vm_compute; reflexivity|]. split; [vm_compute; reflexivity|].
-  apply (convert_value_lemma S83 cs83) with (C := C83) (U := U83_s) (M := Some m83_m) (ft := [49; 46; 48]).
+  apply (convert_value_lemma S83 cs83) with (v := s_3) (w := s_ms) (C := C83) (U := U83_s) (M := Some m83_m)
+                                            (ft := [49; 46; 48]).
   - vm_compute; reflexivity.
   - intros C H; eapply tag_unit_classes_sub; exact H.
   - vm_compute; reflexivity.
   - discriminate.
+  - vm_compute; reflexivity.
   - discriminate.
   - vm_compute; reflexivity.
   - vm_compute; reflexivity.
@@ -192,5 +266,37 @@ Proof.
   - vm_compute; reflexivity.
   - vm_compute; reflexivity.
   - vm_compute; reflexivity.
+  - vm_compute; reflexivity.
+Qed.
+
+(* non-vacuity for unit names with a blank: "Temperature/3 degree Celsius" (HED 8.1.0) meets the hypotheses
+   of convert_value; the theorem gives 3 * (1.0 * 1) *)
+Lemma nonvacuous_blank_lemma :
+  exists fU,
+    unit_factor U81_degC = Some fU /\ Qeq fU 1 /\
+    check_units_valid true true S81 T81 cs81 (s_3 ++ 32 :: s_degree_Celsius) = [] /\
+    value_as_default_unit true true true S81 cs81 (s_3 ++ 32 :: s_degree_Celsius)
+      = Ok (Some (Qmult (Qmult (inject_Z 3) (pow10 0)) (Qmult fU 1))).
+Proof.
+  eexists.
+  split; [vm_compute; reflexivity|]. split; [vm_compute; reflexivity|].
+  split; [vm_compute; reflexivity|].
+  apply (convert_value_lemma S81 cs81) with (v := s_3_degree) (w := s_Celsius) (C := C81) (U := U81_degC)
+                                            (M := None) (ft := [49; 46; 48]).
+  - vm_compute; reflexivity.
+  - intros C H; eapply tag_unit_classes_sub; exact H.
+  - vm_compute; reflexivity.
+  - discriminate.
+  - vm_compute; reflexivity.
+  - discriminate.
+  - vm_compute; reflexivity.
+  - vm_compute; reflexivity.
+  - in_list.
+  - in_list.
+  - split; [exact I|left; vm_compute; reflexivity].
+  - vm_compute; reflexivity.
+  - vm_compute; reflexivity.
+  - vm_compute; reflexivity.
+  - reflexivity.
   - vm_compute; reflexivity.
 Qed.
